@@ -26,6 +26,13 @@ instant (`Time.gmtime`, `Time.mkTm`) with the fraction rendered.
   `ZoneOK` is not met by America/St_Johns 2001–2011 — leaves hour and offset stale).
 * Core pieces at full generality, used by the above and kept as named results: `C13_frac_writer`,
   `C13_patch_fields`, `C13_recalc_points`, `C13_civil_roundtrip`.
+
+The statement without the three exclusions —
+  `∀ p accepted by the constructor, ∀ tz from the tz database, ∀ history, renderAll … = some (history.map (strftimeRef p …))` —
+is what the property asks for and is refuted by the witnesses; the hypotheses `supportedToks (lex p)` (decidable,
+evaluated by the correspondence driver on every generated pattern) and `ZoneOK P tz` (checked per zone by the harness)
+exclude exactly the classes F8 / F20 and F22. The machine is the code as written: per-modifier `find`s with the cut at
+the lowest position (`splitOnceCpp_eq`), the `_replace_all` loop (`replaceAllCpp_eq`), 32-bit `_cached_seconds`.
 -/
 namespace Time
 
@@ -308,6 +315,8 @@ theorem C13_patch_fields (sod0 d : Nat) (h : sod0 + d < 86400) (tm : Tm) (htm : 
   obtain ⟨r, l⟩ := field_render ft tm (by omega) hs
   rw [hcs, hsec, hmin]
   exact ⟨r.symm, by rw [r]; exact l⟩
+
+example : ∃ tm : Tm, tm.sod = 43199 + 1 ∧ (43199 : Nat) + 1 < 86400 := ⟨gmtime 43200, by decide +kernel, by decide⟩
 
 /-- **recalculation points**: the GMT point computed through `gmtime`/`timegm` is the end of the current half day,
     the local point the end of the current period; both lie after the instant, and every instant before them (and
